@@ -420,7 +420,17 @@ func (vc *VC) evalDSL(st *State, fi *FuncInfo, fn *types.Func, call *ast.CallExp
 				o.vars[k] = v
 			}
 		}
+		savedBound := map[types.Object]Val{}
+		for k, ev := range vc.loopOld {
+			if cur, ok := vc.bound[k]; ok {
+				savedBound[k] = cur
+				vc.bound[k] = ev
+			}
+		}
 		v := vc.eval(o, call.Args[0])
+		for k, cur := range savedBound {
+			vc.bound[k] = cur
+		}
 		vc.oldState = save
 		return v
 	case name == "all" || name == "ex":
@@ -613,7 +623,13 @@ func (vc *VC) evalPureStmts(st *State, list []ast.Stmt) Val {
 		return vc.eval(st, s.Results[0])
 	case *ast.IfStmt:
 		c := vc.evalBool(st, s.Cond)
-		a := vc.evalPureStmts(st, s.Body.List)
+		if c == "true" {
+			return vc.evalPureStmts(st, s.Body.List)
+		}
+		var a Val
+		if c != "false" {
+			a = vc.evalPureStmts(st, s.Body.List)
+		}
 		var rest []ast.Stmt
 		if s.Else != nil {
 			if eb, ok := s.Else.(*ast.BlockStmt); ok {
@@ -625,6 +641,9 @@ func (vc *VC) evalPureStmts(st *State, list []ast.Stmt) Val {
 			rest = list[1:]
 		}
 		b := vc.evalPureStmts(st, rest)
+		if c == "false" {
+			return b
+		}
 		as, bs := a.(*Scalar), b.(*Scalar)
 		return sc(ite(c, as.T, bs.T), as.S)
 	case *ast.AssignStmt:
@@ -1149,52 +1168,153 @@ func constantInt(tv types.TypeAndValue) (int, bool) {
 	return int(v), ok
 }
 
-// evalOpaque: an opaque pure function is an uninterpreted symbol; its definition is available only in
-// VCs of functions whose contract says reveal("<name>").
+// evalOpaque: an opaque (abstract) predicate or function. It is an uninterpreted symbol applied to its
+// arguments AND to the heap arrays its definition reads (its footprint, determined by evaluating the body
+// once); the definition is available only in VCs whose contract says reveal("<name>"). Callers that do
+// not reveal it reason with the symbol alone: facts about it come from callee contracts.
 func (vc *VC) evalOpaque(st *State, fi *FuncInfo, args []Val, call *ast.CallExpr) Val {
 	sig := fi.Obj.Type().(*types.Signature)
+	reads := vc.opaqueReads(fi, args)
 	var as []Sort
 	var ts []string
 	for _, a := range args {
-		s := a.(*Scalar)
+		s, ok := a.(*Scalar)
+		if !ok {
+			panic(unsupported("opaque function %s: non-scalar argument", fi.Obj.Name()))
+		}
 		as = append(as, s.S)
 		ts = append(ts, s.T)
 	}
+	for _, r := range reads {
+		as = append(as, r.sort)
+		ts = append(ts, vc.heapGet(st, r.name, r.sort))
+	}
 	rs := vc.sortOf(sig.Results().At(0).Type())
 	f := vc.declareFun("op."+fi.Obj.Name(), as, rs)
-	revealed := false
-	if vc.fn != nil && vc.fn.Spec != nil {
-		for _, sel := range vc.fn.Spec.Selections {
-			if sel.Clause == "#reveal" {
-				for _, l := range sel.Labels {
-					if l == fi.Obj.Name() {
-						revealed = true
-					}
-				}
-			}
-		}
-	}
 	ax := "ax.op." + fi.Obj.Name()
-	if revealed && !vc.declared[ax] {
+	if vc.isRevealed(fi.Obj.Name()) && !vc.declared[ax] {
 		vc.declared[ax] = true
-		// forall params. f(params) = body
 		var binders, names []string
 		var vals []Val
-		for i, srt := range as {
+		for i, a := range args {
+			srt := a.(*Scalar).S
 			vc.fresh++
 			bn := quoteName(fmt.Sprintf("a%d?%d", i, vc.fresh))
 			binders = append(binders, fmt.Sprintf("(%s %s)", bn, srt))
 			names = append(names, bn)
 			vals = append(vals, sc(bn, srt))
 		}
+		scratch := &State{vars: map[types.Object]Val{}, heap: map[string]string{}, pc: "true"}
+		for i, r := range reads {
+			vc.fresh++
+			bn := quoteName(fmt.Sprintf("h%d?%d", i, vc.fresh))
+			binders = append(binders, fmt.Sprintf("(%s %s)", bn, r.sort))
+			names = append(names, bn)
+			scratch.heap[r.name] = bn
+		}
+		saveMode, saveOld := vc.specMode, vc.oldState
+		vc.specMode, vc.oldState = true, scratch
+		body := vc.evalPure(scratch, fi, vals, call).(*Scalar).T
+		vc.specMode, vc.oldState = saveMode, saveOld
+		app := f
+		if len(names) > 0 {
+			app = sx(f, names...)
+		}
+		if len(binders) > 0 {
+			vc.decls = append(vc.decls, fmt.Sprintf("(assert (forall (%s) (! (= %s %s) :pattern (%s))))", strings.Join(binders, " "), app, body, app))
+		} else {
+			vc.decls = append(vc.decls, fmt.Sprintf("(assert (= %s %s))", app, body))
+		}
+	}
+	app := f
+	if len(ts) > 0 {
+		app = sx(f, ts...)
+	}
+	if vc.isRevealed(fi.Obj.Name()) && !strings.Contains(app, "?") {
+		// revealed and ground: unfold in place (so that goals split into their conjuncts) and record the
+		// instance of the definition
 		saveMode := vc.specMode
 		vc.specMode = true
-		body := vc.evalPure(st, fi, vals, call).(*Scalar).T
+		body := vc.evalPure(st, fi, args, call).(*Scalar)
 		vc.specMode = saveMode
-		app := sx(f, names...)
-		vc.decls = append(vc.decls, fmt.Sprintf("(assert (forall (%s) (! (= %s %s) :pattern (%s))))", strings.Join(binders, " "), app, body, app))
+		key := "inst." + app
+		if !vc.declared[key] {
+			vc.declared[key] = true
+			vc.axiom(eq(app, body.T))
+		}
+		return sc(body.T, rs)
 	}
-	return sc(sx(f, ts...), rs)
+	return sc(app, rs)
+}
+
+func (vc *VC) isRevealed(name string) bool {
+	if vc.revealed == nil {
+		vc.revealed = map[string]bool{}
+		var specs []*SpecInfo
+		if vc.fn != nil {
+			specs = append(specs, vc.fn.Spec)
+			for _, l := range vc.fn.Loops {
+				specs = append(specs, l)
+			}
+		}
+		if vc.lemmaSpec != nil {
+			specs = append(specs, vc.lemmaSpec)
+		}
+		for _, si := range specs {
+			if si == nil {
+				continue
+			}
+			for _, sel := range si.Selections {
+				if sel.Clause == "#reveal" {
+					for _, l := range sel.Labels {
+						vc.revealed[l] = true
+					}
+				}
+			}
+		}
+	}
+	return vc.revealed[name]
+}
+
+// opaqueReads: the heap arrays the definition of an opaque function reads (its footprint).
+func (vc *VC) opaqueReads(fi *FuncInfo, args []Val) []heapRead {
+	if vc.opReads == nil {
+		vc.opReads = map[*FuncInfo][]heapRead{}
+	}
+	if r, ok := vc.opReads[fi]; ok {
+		return r
+	}
+	var rec []heapRead
+	saveTraceN := len(vc.trace)
+	saveHT, saveMode, saveOld := vc.heapTrace, vc.specMode, vc.oldState
+	probe := &State{vars: map[types.Object]Val{}, heap: map[string]string{}, pc: "true"}
+	vc.heapTrace, vc.specMode, vc.oldState = &rec, true, probe
+	vc.dry++
+	func() {
+		defer func() {
+			vc.dry--
+			vc.heapTrace, vc.specMode, vc.oldState = saveHT, saveMode, saveOld
+			vc.trace = vc.trace[:saveTraceN]
+			vc.labels = vc.labels[:saveTraceN]
+		}()
+		vc.evalPure(probe, fi, args, nil)
+	}()
+	if saveHT != nil {
+		// nested inside another probe: the outer footprint includes this one
+		for _, r := range rec {
+			dup := false
+			for _, o := range *saveHT {
+				if o.name == r.name {
+					dup = true
+				}
+			}
+			if !dup {
+				*saveHT = append(*saveHT, r)
+			}
+		}
+	}
+	vc.opReads[fi] = rec
+	return rec
 }
 
 func extKey(fn *types.Func) string {
